@@ -10,7 +10,7 @@
 import UnicLocale.Lemmas.MaxMin
 
 namespace UL.Props.C07
-open UL UL.MaxMin
+open UL UL.Mm UL.Mm.MaxMin
 
 /-! ### (i) `likelysubtags::maximize` -/
 
@@ -39,7 +39,7 @@ theorem maximize_extends (T : Tables) (hT : tablesWF T = true) (l : Language) (s
     (l' : Language) (s' r' : Option Bytes) (h : Likely.maximize T l s r = .ok (some (l', s', r'))) :
     (l.isSome = true → l' = l) ∧ (s.isSome = true → s' = s) ∧ (r.isSome = true → r' = r) ∧
       l'.isSome = true ∧ s'.isSome = true ∧ r'.isSome = true ∧ validTriple l' s' r' = true := by
-  obtain ⟨e1, e2, e3, e4⟩ := UL.maximize_extends hT hv h
+  obtain ⟨e1, e2, e3, e4⟩ := UL.Mm.maximize_extends hT hv h
   obtain ⟨_, f1, f2, f3⟩ := maximize_fills T hT l s r l' s' r' h
   exact ⟨e1, e2, e3, f1, f2, f3, e4⟩
 
@@ -134,7 +134,7 @@ theorem langid_maximize_keeps (T : Tables) (hT : tablesWF T = true) (x y : LangI
     validTriple y.language y.script y.region = true := by
   rcases applyTriple_ok_inv h with ⟨_, _, h3⟩ | ⟨t, h1, h2, _⟩
   · cases h3
-  · obtain ⟨e1, e2, e3, e4⟩ := UL.maximize_extends hT hv h1
+  · obtain ⟨e1, e2, e3, e4⟩ := UL.Mm.maximize_extends hT hv h1
     subst h2
     exact ⟨e1, e2, e3, e4⟩
 
